@@ -386,6 +386,21 @@ where
     }
 }
 
+/// Read-only access to the finished strategy for the external verification harness.
+#[cfg(ndarray_interp_verif)]
+impl<Sd, Sx, D, Strat> Interp1D<Sd, Sx, D, Strat>
+where
+    Sd: Data,
+    Sd::Elem: Num + Debug + Send,
+    Sx: Data<Elem = Sd::Elem>,
+    D: Dimension,
+    Strat: Interp1DStrategy<Sd, Sx, D>,
+{
+    pub fn verif_strategy(&self) -> &Strat {
+        &self.strategy
+    }
+}
+
 impl<Sd, D> Interp1DBuilder<Sd, OwnedRepr<Sd::Elem>, D, Linear>
 where
     Sd: Data,
